@@ -375,8 +375,11 @@ public:
     }
     else {
       if (tied_reg->has_use_id()) {
+        // The duplicate is materialized by a move into `use_id` just before the call, which overwrites that register
+        // even when the callee's calling convention preserves it - so it's clobbered from the caller's perspective.
         flags |= RATiedFlags::kDuplicate;
         tied_reg->_use_reg_mask |= allocable;
+        _clobbered[group] |= allocable;
       }
       else {
         tied_reg->set_use_id(use_id);
